@@ -31,6 +31,7 @@ class Harness:
     whitebox: bool = False
     functions: List[str] = field(default_factory=list)   # generated functions this harness drives
     solver: Optional[str] = None
+    native_only: bool = False       # replay vehicle for E2 counterexamples: compiled natively only, never a Kani proof
 
 
 @dataclass
@@ -192,6 +193,13 @@ def render_program(p: Program):
     if p.helper_src:
         out.append(p.helper_src)
     for h in p.harnesses:
+        if h.native_only:
+            out.append("// native-only replay vehicle %s : %s" % (h.name, h.desc.replace("\n", " ")))
+            out.append("#[cfg(not(kani))]")
+            out.append("pub fn %s() {" % h.name)
+            out.append(h.body)
+            out.append("}")
+            continue
         attrs = ["#[cfg_attr(kani, kani::proof)]"]
         if h.unwind is not None:
             attrs.append("#[cfg_attr(kani, kani::unwind(%d))]" % h.unwind)
